@@ -582,11 +582,18 @@ def atoms(U):
         ("VS", lambda: U.x.sum()), ("LC", lambda: np.array([1.0, 2.0, 0.5][:U.n] + [1.0] * max(0, U.n - 3)) @ U.x),
         ("DOT", lambda: V.DotProduct(U.x, U.y)), ("PS1", lambda: V.VectorPowerSum(U.x, 1)),
         ("X/K", lambda: x / Constant(4.0)), ("NEG", lambda: -(x + 1.0)),
+        # constant-valued compounds and zero-annihilated terms wherever an operand can stand
+        ("X**0", lambda: x ** 0), ("0*X", lambda: 0 * x), ("SINK", lambda: sin(Constant(2.0))), ("P*2", lambda: U.params[0] * 2.0),
+        ("K/K", lambda: Constant(3.0) / Constant(4.0)), ("(XY)**0", lambda: (x * y) ** 0),
     ]
 
 
 EXPONENTS = [0, 1, 2, 3, 2.0, 1.0, 0.0, 2.5, -1, -2.0, 0.5, np.float64(2.0), np.float64(0.5), float(np.log(2.0)),
-             np.int64(2), np.array(2.0), np.array([2.0]), True]
+             np.int64(2), np.array(2.0), np.array([2.0]), True,
+             # magnitudes and near-integers
+             -0.0, 1e-9, 1e-300, 2.0000000000000004, 1.9999999999999998, 3.0000000000000004, 64, 65, 1e8, 1e16, -1e-9, 5e-324,
+             # numeric types (NumPy scalars other than float64 become 0-d array Constants)
+             np.float32(2.0), np.float16(2.0), np.uint8(2), np.int8(-1), np.uint64(3), np.bool_(True), False, np.float64(-0.0)]
 
 
 def cell_cover(rng):
@@ -642,7 +649,7 @@ def cell_cover(rng):
             out.append((f"dot:{va}:{vb}", (lambda v=v, v2=v2: V.DotProduct(v(), v2()))))
     for i, v in enumerate(views):
         out.append((f"vs:view{i}", (lambda v=v: V.VectorSum(v))))
-        for k in [0, 1, 2, 3, 2.0, 0.5, -1, 2.5, 0.0, -2.0, 7]:
+        for k in [0, 1, 2, 3, 2.0, 0.5, -1, 2.5, 0.0, -2.0, 7, -0.0, 1e-9, 2.0000000000000004, 1e8, np.float32(2.0), np.uint8(2), np.int64(1), True]:
             out.append((f"ps:{k!r}:view{i}", (lambda v=v, k=k: V.VectorPowerSum(v, k))))
         for op in gen.VOPS:
             out.append((f"us:{op}:view{i}", (lambda v=v, op=op: V.VectorUnarySum(v, op))))
@@ -720,6 +727,87 @@ def magnitude_cover(rng):
     return out
 
 
+def typed_coef_cover(rng):
+    """numeric TYPES of coefficient arrays / matrices (int, unsigned, bool, float16/32, lists, 0-d, Fortran order,
+    strided) over a high-degree / non-polynomial element: a classifier that looks at the numbers must not be fooled
+    by a dtype (bool False and integer 0 are exact zeros: a *lower* degree would still be sound there)"""
+    from optyx.core.expressions import Constant
+    from optyx.core import vectors as V
+    from optyx.core import matrices as M
+    from optyx.core.functions import sin
+
+    U = gen.Universe(rng)
+    x, y = U.scalars[0], U.scalars[1]
+    y2 = U.y[0:2]
+    highs = [("y3", lambda: y ** 3), ("sin", lambda: sin(y)), ("xy", lambda: x * y)]
+    dts = [("int", lambda v: np.array([int(t) for t in v])), ("list", lambda v: [float(t) for t in v]), ("int8", lambda v: np.array(v).astype(np.int8)),
+           ("uint8", lambda v: np.array(v).astype(np.uint8)), ("uint64", lambda v: np.array(v).astype(np.uint64)), ("bool", lambda v: np.array(v).astype(bool)),
+           ("float16", lambda v: np.array(v).astype(np.float16)), ("float32", lambda v: np.array(v).astype(np.float32)),
+           ("strided", lambda v: np.array([t for u in v for t in (u, 9.0)])[::2]), ("fortran", lambda v: np.asfortranarray(np.array(v, dtype=float)))]
+    out = []
+    for dn, mk in dts:
+        for hn, H in highs:
+            for vals in ([1, 1], [1, 0], [0, 1], [2, 3]):
+                def forms(mk=mk, H=H, vals=vals):
+                    mat = lambda: (np.asfortranarray(np.array([vals, [0, 1]], dtype=float)) if dn == "fortran" else
+                                   ([[float(t) for t in vals], [0.0, 1.0]] if dn == "list" else np.array([vals, [0, 1]]).astype(np.asarray(mk(vals)).dtype)))
+                    return [
+                        ("LC", lambda: V.LinearCombination(mk(vals), V.VectorExpression([x, H()]))),
+                        ("c@ve", lambda: mk(vals) @ V.VectorExpression([x + 1.0, H()])),
+                        ("c@matmul", lambda: np.array([1.0, 1.0]) @ M.matmul(mat(), V.VectorExpression([x, H()]))),
+                        ("QF", lambda: M.QuadraticForm(V.VectorExpression([x, H()]), mat())),
+                        ("dot(matmul,y)", lambda: V.DotProduct(M.matmul(mat(), V.VectorExpression([x, H()])), y2)),
+                    ]
+                for fn, f in forms():
+                    if _builds(f):
+                        out.append((f"typed:{fn}:{dn}:{vals}:{hn}", f))
+    return out
+
+
+def shared_cover(rng):
+    """sharing: the same compound sub-expression OBJECT at several places (shallow forms, and re-used at many levels of
+    deep chains that run through the explicit-stack traversal), polynomial and non-polynomial; balanced trees"""
+    from optyx.core.expressions import BinaryOp, Constant, UnaryOp
+    from optyx.core import vectors as V
+    from optyx.core.functions import sin
+
+    U = gen.Universe(rng)
+    x, y = U.scalars[0], U.scalars[1]
+    terms = [("lin", lambda: 2.0 * x + 1.0), ("sq", lambda: x ** 2), ("sin", lambda: sin(x) * 3.0), ("xy", lambda: x * y), ("k", lambda: Constant(2) + 3),
+             ("lc", lambda: np.ones(U.n) @ U.x), ("lcsq", lambda: np.ones(U.n) @ ((U.x - 1.0) ** 2)), ("dot", lambda: V.DotProduct(U.x, U.y)), ("x/y", lambda: x / y)]
+    forms = [("t+t", lambda t: t + t), ("t-t", lambda t: t - t), ("t*t", lambda t: t * t), ("t*2+t", lambda t: t * 2.0 + t), ("(t+y)-(t-y)", lambda t: (t + y) - (t - y)),
+             ("-(t)+t/2", lambda t: -t + t / 2.0), ("(t+1)**2-t", lambda t: (t + 1.0) ** 2 - t), ("t**0+t", lambda t: t ** 0 + t), ("k*(t+t)", lambda t: (Constant(1) + 1) * (t + t)),
+             ("lc[t,t]", lambda t: np.array([1.0, -2.0]) @ V.VectorExpression([t, t])), ("dot[t..][t..]", lambda t: (lambda v: V.DotProduct(v, v))(V.VectorExpression([t, y]))),
+             ("0*t+t", lambda t: 0 * t + t)]
+    out = []
+    for tn, mk in terms:
+        for fn, f in forms:
+            g = (lambda mk=mk, f=f: f(mk()))
+            if _builds(g):
+                out.append((f"shared:{fn}:{tn}", g))
+        for d in (399, 401, 450):
+            def deep(mk=mk, d=d, stride=rng.choice([7, 37, 101])):
+                t = mk()
+                e = t
+                for i in range(d):
+                    u = t if i % stride == 0 else (Constant(float(i % 3)) if i % 2 else y)
+                    e = BinaryOp(e, u, "+" if i % 3 else "-") if i % 5 else BinaryOp(u, e, "+")
+                return e
+            out.append((f"chainshared:{d}:{tn}", deep))
+    # balanced trees (depth 7..9: 128..512 leaves, far below every depth threshold but many nodes)
+    for depth in (7, 9):
+        for (ln, leaf) in [("lin", lambda i: (x if i % 2 else y) * float(1 + i % 3)), ("one-sq", lambda i: x ** 2 if i == 5 else y), ("one-sin", lambda i: sin(x) if i == 77 else y)]:
+            def bal(depth=depth, leaf=leaf):
+                level = [leaf(i) for i in range(2 ** depth)]
+                j = 0
+                while len(level) > 1:
+                    level = [BinaryOp(level[k], level[k + 1], "+" if (j + k) % 3 else "-") for k in range(0, len(level), 2)]
+                    j += 1
+                return level[0]
+            out.append((f"balanced:{depth}:{ln}", bal))
+    return out
+
+
 def vector_likes(U):
     """(name, maker) of every kind of vector-like object the API produces, length n: VectorVariable and its
     views, matrix rows / columns / diagonals, VectorExpressions of every element class (linear, constant,
@@ -730,7 +818,10 @@ def vector_likes(U):
 
     n = U.n
     x, y, w = U.x, U.y, U.w
-    out = [("x", lambda: x), ("x[::-1]", lambda: x[::-1]), ("w[1:n+1]", lambda: w[1:n + 1]), ("w[0:2n:2]", lambda: w[0:2 * n:2][:n] if len(w[0:2 * n:2]) >= n else w[0:n])]
+    out = [("x", lambda: x), ("x[::-1]", lambda: x[::-1]), ("w[1:n+1]", lambda: w[1:n + 1]), ("w[0:2n:2]", lambda: w[0:2 * n:2][:n] if len(w[0:2 * n:2]) >= n else w[0:n]),
+           ("w[1:][1:3]", lambda: w[1:][1:3]), ("w[::-1][::2]", lambda: w[::-1][::2]), ("x[0:1]", lambda: x[0:1]), ("M.T[1,:]", lambda: U.M.T[1, :]),
+           ("M[0:2,0:2][:,1]", lambda: U.M[0:2, 0:2][:, 1]), ("M[::-1,0]", lambda: U.M[::-1, 0]), ("M[0:2,:].T[0,:]", lambda: U.M[0:2, :].T[0, :]),
+           ("Sdiag", lambda: U.S.diagonal()), ("S.T[0,:]", lambda: U.S.T[0, :]), ("len1expr", lambda: (x[0:1] - 1.0) ** 2)]
     if U.M.rows >= n or True:
         out += [("Mrow", lambda: U.M[0, :]), ("Mcol", lambda: U.M[:, 1]), ("Mdiag", lambda: U.M.diagonal()), ("Srow", lambda: U.S[1, :])]
     out += [
@@ -743,7 +834,7 @@ def vector_likes(U):
         ("onebad", lambda: V.VectorExpression(([x[0], x[1] + 1.0] * n)[:n - 1] + [sin(x[0])])),
         ("param", lambda: V.VectorExpression([U.params[0] * v for v in x])),
     ]
-    return [(nm, mk) for nm, mk in out if _builds(mk) and _len(mk) == n]
+    return [(nm, mk) for nm, mk in out if _builds(mk) and _len(mk)]
 
 
 def _builds(mk):
@@ -1006,6 +1097,27 @@ def check_cases(cases, rep, rng, thorough, T_choices=(400, 0, 3)):
             unsupported = "array/bool-valued Constant"
         o["sexp"] = s
         o["unsupported"] = unsupported
+        # the property oracle runs now and the expression object is dropped: later cases are then built at the
+        # addresses of dead ones (object lifetime / id reuse through any id-keyed cache of the code under test)
+        d0 = o["compute"]
+        o["oracle"] = None
+        if isinstance(d0, int) and not isinstance(d0, bool) and not any(isinstance(x, str) for x in (o["iter"], o["reads"][0], o["reads"][1])):
+            if tag.startswith("chain") and not thorough and int(tag.split(":")[1]) > 450:
+                o["oracle"] = degree_oracle(e, d0, rng, lines=1)
+            else:
+                o["oracle"] = degree_oracle(e, d0, rng)
+        # consumer channel: Problem._is_linear_problem() must agree with is_linear
+        o["plin"] = None
+        if shallow and len(metas) % 4 == 0:
+            try:
+                from optyx import Problem
+                with warnings.catch_warnings():
+                    warnings.simplefilter("ignore")
+                    o["plin"] = bool(Problem().minimize(e)._is_linear_problem())
+            except Exception as ex:  # noqa: BLE001
+                o["plin"] = f"raise:{type(ex).__name__}"
+        o["e"] = None
+        del e
         if unsupported is None:
             lines.append(f"deg {T} 2 {s}")
             metas.append(o)
@@ -1014,7 +1126,7 @@ def check_cases(cases, rep, rng, thorough, T_choices=(400, 0, 3)):
             metas.append(o)
     outs = iter(run_lean_unit(lines))
     for o in metas:
-        e, tag = o["e"], o["tag"]
+        tag = o["tag"]
         key = tag.split(":")[0]
         rep.histogram[key] = rep.histogram.get(key, 0) + 1
         rep.evaluations += 1
@@ -1038,6 +1150,9 @@ def check_cases(cases, rep, rng, thorough, T_choices=(400, 0, 3)):
         if o["lin"] != (d is not None and d <= 1) or o["quad"] != (d is not None and d <= 2) or o["lin_method"] != o["lin"]:
             rep.oracle_failures.append({"what": "is_linear / is_quadratic inconsistent with the reported degree",
                                         "observed": impl_line, "expr": o["sexp"], "tag": tag, "T": o["T"], **hist})
+        if o["plin"] is not None and o["plin"] != o["lin"]:
+            rep.oracle_failures.append({"what": "Problem._is_linear_problem() disagrees with is_linear() on the objective",
+                                        "observed": impl_line, "problem_is_linear": o["plin"], "expr": o["sexp"], "tag": tag, "T": o["T"], **hist})
         if o["unsupported"] is None:
             model = next(outs)
             if model != impl_line:
@@ -1046,10 +1161,7 @@ def check_cases(cases, rep, rng, thorough, T_choices=(400, 0, 3)):
         if d is not None:
             rep.nontrivial.add(hash(o["sexp"] or tag))
             rep.histogram[f"degree={min(d, 9)}{'+' if d > 9 else ''}"] = rep.histogram.get(f"degree={min(d, 9)}{'+' if d > 9 else ''}", 0) + 1
-            if tag.startswith("chain") and not thorough and int(tag.split(":")[1]) > 450:
-                r = degree_oracle(e, d, rng, lines=1)
-            else:
-                r = degree_oracle(e, d, rng)
+            r = o["oracle"]
             if isinstance(r, str):
                 rep.skipped["oracle:" + r[5:]] = rep.skipped.get("oracle:" + r[5:], 0) + 1
             elif r is not None:
@@ -1072,7 +1184,7 @@ def run(ctx) -> core.Report:
                            "in every coefficient position over high-degree / non-polynomial elements, deep chains around the 400 "
                            "switch and the 500 depth cut-off, seeded random trees biased to the polynomial fragment; "
                            "thresholds 400 / 0 / 3 / 10^9; non-trivial = distinct expressions with a finite degree")
-    cases = list(cell_cover(rng)) + vector_operand_cover(rng) + magnitude_cover(rng) + chain_cases(rng, thorough)
+    cases = list(cell_cover(rng)) + vector_operand_cover(rng) + magnitude_cover(rng) + typed_coef_cover(rng) + shared_cover(rng) + chain_cases(rng, thorough)
     n_rand = 40000 if thorough else 4000
     for i in range(n_rand):
         U = gen.Universe(rng)
@@ -1135,7 +1247,7 @@ def search(ctx, rep):
         pool.append(("mismatch", (lambda sx=sx: deser(sx))))
         for v in coefficient_variants(sx):
             pool.append(("mismatch-variant", (lambda v=v: deser(v))))
-    pool += [(t, m) for t, m in cell_cover(rng)] + vector_operand_cover(rng) + magnitude_cover(rng) + chain_cases(rng, False)
+    pool += [(t, m) for t, m in cell_cover(rng)] + vector_operand_cover(rng) + magnitude_cover(rng) + typed_coef_cover(rng) + shared_cover(rng) + chain_cases(rng, False)
     for i in range(30000):
         U = gen.Universe(rng)
         depth = rng.randint(1, 6)
